@@ -185,18 +185,20 @@ theorem py_eq_c (s2pp : Fin ns → Fin np) (D : Fin N → DM np K) (ms : Fin np 
   simp only [dynmatToFcPy, dynmatToFc, sumFin_eq, Finset.sum_mul]
 
 /-- (4) **D(q) → fc → D(q)** at every commensurate point, for Hermitian matrices with the
-time-reversal structure `D(−q) = conj D(q)` (what real force constants produce). -/
+time-reversal structure of real force constants: for the list's representative `q'` of `−q`,
+`D(q')[i,j] = ψ(q',j,i) ψ(q,j,i) · conj D(q)[i,j]` — the unit factor `ψ(q')ψ(q) = exp(2πi G₀·(x_j − x_i))`
+is the zone factor of phonopy's matrices for `q' = −q + G₀` (1 for `G₀ = 0` or one atom per cell). -/
 theorem roundtrip_dm (L : Lat np ns N) (hwf : L.wf = true) (hN : 0 < N) (Z : Zeta K L.Nd)
     (ψ : Fin N → Fin np → Fin np → Cx K) (hψ : ∀ q j i, (ψ q j i).conj * ψ q j i = 1)
-    (hψn : ∀ q q' j i, P3.Dvd L.Nd ((L.kq q).add (L.kq q')) → ψ q' j i = (ψ q j i).conj)
     (mult : Fin ns → Fin np → Nat) (hm : ∀ k i, 0 < mult k i)
     (ms : Fin np → Fin np → K) (hms : ∀ i j, ms i j ≠ 0) (D : Fin N → DM np K)
     (hH : ∀ q, IsHermitian (D q))
-    (hTR : ∀ q q', P3.Dvd L.Nd ((L.kq q).add (L.kq q')) → ∀ i a j b, D q' i a j b = (D q i a j b).conj)
+    (hTR : ∀ q q', P3.Dvd L.Nd ((L.kq q).add (L.kq q')) → ∀ i a j b,
+      D q' i a j b = (ψ q' j i * ψ q j i) * (D q i a j b).conj)
     (q' : Fin N) :
     dynmat (cT L) (dynmatToFc L.s2pp D ms (phI L Z ψ mult)) ms (phF L Z ψ mult q') = D q' := by
   unfold dynmat
-  rw [roundtrip_dm_raw (L.wf_sound hwf) hN Z ψ hψ hψn mult hm ms hms D q' (fun q hd => hTR q q' hd)]
+  rw [roundtrip_dm_raw (L.wf_sound hwf) hN Z ψ hψ mult hm ms hms D q' (fun q hd => hTR q q' hd)]
   exact hermitize_of_hermitian _ (hH q')
 
 /-- (5) `Phonopy.ph2ph`: the force constants of the target supercell are the inverse transform of
@@ -206,13 +208,13 @@ at the points commensurate with the original supercell (`emb` is their position 
 theorem ph2ph_preserves {N0 : Nat} (emb : Fin N0 → Fin N)
     (L : Lat np ns N) (hwf : L.wf = true) (hN : 0 < N) (Z : Zeta K L.Nd)
     (ψ : Fin N → Fin np → Fin np → Cx K) (hψ : ∀ q j i, (ψ q j i).conj * ψ q j i = 1)
-    (hψn : ∀ q q' j i, P3.Dvd L.Nd ((L.kq q).add (L.kq q')) → ψ q' j i = (ψ q j i).conj)
     (mult : Fin ns → Fin np → Nat) (hm : ∀ k i, 0 < mult k i)
     (ms : Fin np → Fin np → K) (hms : ∀ i j, ms i j ≠ 0) (D : Fin N → DM np K)
     (hH : ∀ q, IsHermitian (D q))
-    (hTR : ∀ q q', P3.Dvd L.Nd ((L.kq q).add (L.kq q')) → ∀ i a j b, D q' i a j b = (D q i a j b).conj) :
+    (hTR : ∀ q q', P3.Dvd L.Nd ((L.kq q).add (L.kq q')) → ∀ i a j b,
+      D q' i a j b = (ψ q' j i * ψ q j i) * (D q i a j b).conj) :
     ∀ q0, dynmat (cT L) (dynmatToFc L.s2pp D ms (phI L Z ψ mult)) ms (phF L Z ψ mult (emb q0)) = D (emb q0) :=
-  fun q0 => roundtrip_dm L hwf hN Z ψ hψ hψn mult hm ms hms D hH hTR (emb q0)
+  fun q0 => roundtrip_dm L hwf hN Z ψ hψ mult hm ms hms D hH hTR (emb q0)
 
 /-! ## `Phonopy.ph2ph(with_nac=True)` (`ph2fc`)
 
@@ -224,15 +226,14 @@ matrix at the target's `q`-th point. -/
 /-- pointwise form of `roundtrip_dm`: only the matrix at `q'` and at its negative matter. -/
 theorem ph2ph_preserves_at (L : Lat np ns N) (hwf : L.wf = true) (hN : 0 < N) (Z : Zeta K L.Nd)
     (ψ : Fin N → Fin np → Fin np → Cx K) (hψ : ∀ q j i, (ψ q j i).conj * ψ q j i = 1)
-    (hψn : ∀ q q' j i, P3.Dvd L.Nd ((L.kq q).add (L.kq q')) → ψ q' j i = (ψ q j i).conj)
     (mult : Fin ns → Fin np → Nat) (hm : ∀ k i, 0 < mult k i)
     (ms : Fin np → Fin np → K) (hms : ∀ i j, ms i j ≠ 0) (D : Fin N → DM np K) (q' : Fin N)
     (hH : IsHermitian (D q'))
-    (hTR : ∀ q, P3.Dvd L.Nd ((L.kq q).add (L.kq q')) → D q' = C08.conjDM (D q)) :
+    (hTR : ∀ q, P3.Dvd L.Nd ((L.kq q).add (L.kq q')) → ∀ i a j b,
+      D q' i a j b = (ψ q' j i * ψ q j i) * (D q i a j b).conj) :
     dynmat (cT L) (dynmatToFc L.s2pp D ms (phI L Z ψ mult)) ms (phF L Z ψ mult q') = D q' := by
   unfold dynmat
-  rw [roundtrip_dm_raw (L.wf_sound hwf) hN Z ψ hψ hψn mult hm ms hms D q'
-    (fun q hd i a j b => by rw [hTR q hd]; rfl)]
+  rw [roundtrip_dm_raw (L.wf_sound hwf) hN Z ψ hψ mult hm ms hms D q' hTR]
   exact hermitize_of_hermitian _ hH
 
 /-- Wang's matrix is the plain one whenever the phases of every sublattice sum to zero (a q-point
@@ -253,12 +254,12 @@ theorem wang_plain {nps nss nrs : Nat} (Ts : FTables nps nss nrs) (fc : Fin nrs 
 
 /-- (5a) **ph2ph with Wang's NAC preserves the matrices at the source-commensurate points**:
 at such a point `q'` and at its negative `q'n` the corrected matrix is the plain one
-(`wang_plain`), the phase table of `q'n` is the conjugate one, hence `D(q'n) = conj D(q')` and the
-target object reproduces `D(q')` exactly.  (At target points that are *not* commensurate with the
+(`wang_plain`), the source phase table of `q'n` is the conjugate one up to the zone factor
+`γ j i = ψ(q',j,i) ψ(q'n,j,i)` (`q'n = −q' + G₀`), hence `D(q') = γ · conj D(q'n)` and the target
+object reproduces `D(q')` exactly.  (At target points that are *not* commensurate with the
 source supercell Wang's constant depends on the representative of q and no such statement holds.) -/
 theorem ph2ph_wang_preserves (L : Lat np ns N) (hwf : L.wf = true) (hN : 0 < N) (Z : Zeta K L.Nd)
     (ψ : Fin N → Fin np → Fin np → Cx K) (hψ : ∀ q j i, (ψ q j i).conj * ψ q j i = 1)
-    (hψn : ∀ q q' j i, P3.Dvd L.Nd ((L.kq q).add (L.kq q')) → ψ q' j i = (ψ q j i).conj)
     (mult : Fin ns → Fin np → Nat) (hm : ∀ k i, 0 < mult k i)
     (ms : Fin np → Fin np → K) (hms : ∀ i j, ms i j ≠ 0)
     {nss nrs : Nat} (Ts : FTables np nss nrs) (fcS : Fin nrs → Fin nss → Fin 3 → Fin 3 → K)
@@ -267,31 +268,32 @@ theorem ph2ph_wang_preserves (L : Lat np ns N) (hwf : L.wf = true) (hN : 0 < N) 
     (hneg : P3.Dvd L.Nd ((L.kq q'n).add (L.kq q')))
     (hplain : (∀ i j, C08.phaseSum Ts (phS q') i j = 0) ∨ C08.normSq (qc q') < tolSq)
     (hplainn : (∀ i j, C08.phaseSum Ts (phS q'n) i j = 0) ∨ C08.normSq (qc q'n) < tolSq)
-    (hconj : phS q'n = C08.conjPh (phS q')) :
+    (hsym : ∀ i j, ms j i = ms i j) (hψs : ∀ q j i, ψ q i j = (ψ q j i).conj)
+    (hconj : ∀ k i j, Ts.s2p k = (Ts.p2s j).1 →
+      phS q' k i = (phS q'n k i).map fun z => (ψ q' j i * ψ q'n j i) * z.conj) :
     let D : Fin N → DM np K := fun q => C08.wangDynmat Ts fcS ms (phS q) f (qc q) none tolSq eps born
     dynmat (cT L) (dynmatToFc L.s2pp D ms (phI L Z ψ mult)) ms (phF L Z ψ mult q') = D q' := by
   intro D
   have h1 : D q' = dynmat Ts fcS ms (phS q') := wang_plain Ts fcS ms _ f _ tolSq eps born hplain
   have h2 : D q'n = dynmat Ts fcS ms (phS q'n) := wang_plain Ts fcS ms _ f _ tolSq eps born hplainn
-  apply ph2ph_preserves_at L hwf hN Z ψ hψ hψn mult hm ms hms D q'
+  apply ph2ph_preserves_at L hwf hN Z ψ hψ mult hm ms hms D q'
   · rw [h1]; exact C08.dynmat_isHermitian _ _ _ _
   · intro q hd
     have hq : q = q'n := (L.wf_sound hwf).neg_unique (q := q') (by rw [P3.add_comm']; exact hd) (by rw [P3.add_comm']; exact hneg)
-    rw [hq, h1, h2, hconj, C08.dynmat_time_reversal]
-    funext i a j b
-    simp [C08.conjDM]
+    intro i a j b
+    rw [hq, h1, h2, C08.dynmat_twist Ts fcS ms hsym (phS q'n) (phS q') (fun j i => ψ q' j i * ψ q'n j i)
+      (fun i j => by rw [hψs q' j i, hψs q'n j i, Cx.conj_mul]) hconj]
 
 /-- (5b) **ph2ph with the Gonze–Lee NAC**: the target object reproduces `D_GL(q')` at a target point
 `q'` provided the list contains the *exact* negative of `q'` (`q_cart(q'n) = −q_cart(q')`, conjugate
 phase tables, the weights of `−K` equal those of `K`) and the `G` list is symmetric under `G ↦ −G`
-(certificate `gListWf`, real Hermitian `dd_q0`).  **Caveat (first zone):** the implementation
+(certificate `gListWf`, real Hermitian `dd_q0`; then the zone factor `ψ(q')ψ(q'n)` is 1).  **Caveat (first zone):** the implementation
 lists the points in `[0,1)³`, where the representative of `−q'` is `−q' + G₀`; for `G₀ ≠ 0` the
 truncated reciprocal sum runs over a shifted set of `K = G + q` and `D_GL(−q'+G₀) = conj D_GL(q')`
 holds only up to the neglected tail — then preservation is to the reciprocal-sum precision only
 (checked by the oracle), exactly as for `gl_commensurate_partial`. -/
 theorem ph2ph_gl_preserves (L : Lat np ns N) (hwf : L.wf = true) (hN : 0 < N) (Z : Zeta K L.Nd)
     (ψ : Fin N → Fin np → Fin np → Cx K) (hψ : ∀ q j i, (ψ q j i).conj * ψ q j i = 1)
-    (hψn : ∀ q q' j i, P3.Dvd L.Nd ((L.kq q).add (L.kq q')) → ψ q' j i = (ψ q j i).conj)
     (mult : Fin ns → Fin np → Nat) (hm : ∀ k i, 0 < mult k i)
     (ms : Fin np → Fin np → K) (hms : ∀ i j, ms i j ≠ 0) (hsym : ∀ i j, ms j i = ms i j)
     {nss nrs nG : Nat} (Ts : FTables np nss nrs) (fcSR : Fin nrs → Fin nss → Fin 3 → Fin 3 → K)
@@ -303,6 +305,7 @@ theorem ph2ph_gl_preserves (L : Lat np ns N) (hwf : L.wf = true) (hN : 0 < N) (Z
     (hq0 : ∀ i a b, ddq0 i b a = (ddq0 i a b).conj) (hreal : ∀ i a b, (ddq0 i a b).im = 0)
     (q' q'n : Fin N) (hneg : P3.Dvd L.Nd ((L.kq q'n).add (L.kq q')))
     (hqc : qc q'n = fun i => -qc q' i) (hconj : phS q'n = C08.conjPh (phS q'))
+    (hψ1 : ∀ j i, ψ q' j i * ψ q'n j i = 1)
     (he : ∀ g, expv q'n (nu g) = expv q' g) :
     let D : Fin N → DM np K := fun q =>
       C08.glDynmat Ts fcSR ms (phS q) G (qc q) none eps born tolSq (expv q) phG ddq0 factor
@@ -314,7 +317,7 @@ theorem ph2ph_gl_preserves (L : Lat np ns N) (hwf : L.wf = true) (hN : 0 < N) (Z
     exact hG g
   let ν : Fin nG ≃ Fin nG := ⟨nu, nu, fun g => (hinv g).1, fun g => (hinv g).1⟩
   have hν : C08.GSym G ν := ⟨fun g i => (hinv g).2 i⟩
-  apply ph2ph_preserves_at L hwf hN Z ψ hψ hψn mult hm ms hms D q'
+  apply ph2ph_preserves_at L hwf hN Z ψ hψ mult hm ms hms D q'
   · exact C08.glDynmat_isHermitian Ts fcSR ms _ G _ none eps born tolSq _ phG ddq0 factor hphG hq0 hsym
   · intro q hd
     have hq : q = q'n := (L.wf_sound hwf).neg_unique (q := q') (by rw [P3.add_comm']; exact hd) (by rw [P3.add_comm']; exact hneg)
@@ -323,8 +326,8 @@ theorem ph2ph_gl_preserves (L : Lat np ns N) (hwf : L.wf = true) (hN : 0 < N) (Z
     have e : D q'n = C08.conjDM (D q') := by
       show C08.glDynmat Ts fcSR ms (phS q'n) G (qc q'n) none eps born tolSq (expv q'n) phG ddq0 factor = _
       rw [hconj, hqc]; exact this
-    rw [hq, e]
-    funext i a j b
+    intro i a j b
+    rw [hq, e, hψ1 j i, one_mul]
     simp [C08.conjDM]
 
 /-! ## non-vacuity -/
@@ -334,8 +337,8 @@ example : Lex.wf = true := Lex_wf
 /-- the hypotheses of the round-trip theorems are satisfiable: `zeta2` is a faithful character of
 `ℤ/2` over ℚ, `Lex` passes the certificate, `ψ = 1`, multiplicities 1 or 2. -/
 example : ∃ (Z : Zeta ℚ Lex.Nd) (ψ : Fin 2 → Fin 1 → Fin 1 → Cx ℚ), (∀ q j i, (ψ q j i).conj * ψ q j i = 1) ∧
-    (∀ q q' j i, P3.Dvd Lex.Nd ((Lex.kq q).add (Lex.kq q')) → ψ q' j i = (ψ q j i).conj) :=
-  ⟨zeta2, fun _ _ _ => 1, fun _ _ _ => by simp, fun _ _ _ _ _ => by simp⟩
+    (∀ q j i, ψ q i j = (ψ q j i).conj) :=
+  ⟨zeta2, fun _ _ _ => 1, fun _ _ _ => by simp, fun _ _ _ => by simp⟩
 
 example : snfWf ((2, 1, 0), (0, 1, 0), (-1, 0, 2)) (1, 1, 4) ((0, 1, 0), (-1, 0, 0), (2, 0, 1))
     ((0, 0, 1), (1, 0, -1), (0, 1, 2)) = true := by decide
